@@ -19,6 +19,7 @@ main, greedy allocator and writer sorting a set with ties) are repaired in /repo
 nothing is attributed to a known finding any more. The harness-side instrumentation that used to attribute them is
 kept as evidence counters (a cross-compilation hit of the weight cache must not happen at all now).
 
+ (4) the hill-climb allocator called repeatedly in one process on live ranges that need its randomised search.
  (3) the greedy allocator on live ranges it cannot tell apart, re-created at different heap addresses: the addresses it
      hands out must depend on the creation order only.
 """
@@ -388,6 +389,14 @@ def make_scenarios(rng, n, hardcoded):
         prof = kind if kind in pipe_common.PROFILES else "mixed"
         opts = pipe_common.sample_config(rng, prof)
         pool.append((spec, opts))
+    # dedicated pools: twins (same network, one attribute flipped) and models with several third-party custom operators
+    twins = []
+    for _ in range(max(6, n // 12)):
+        sd = rng.randrange(1 << 20)
+        opts = pipe_common.sample_config(rng, "mixed")
+        twins.append(((("twin0", sd), opts), (("twin1", sd), opts)))
+    customs = [(("custom_codes", rng.randrange(1 << 20)), pipe_common.sample_config(rng, "mixed")) for _ in range(max(4, n // 40))]
+    pool += customs
     crashers = [(("weird", rng.randrange(1 << 20)), pipe_common.sample_config(rng, "mixed")) for _ in range(max(4, n // 10))]
 
     def step(p, entry="main", reset=False, opts=None, keep=False):
@@ -398,12 +407,25 @@ def make_scenarios(rng, n, hardcoded):
         return {"net": list(spec), "opts": list(o), "entry": entry, "reset": reset, "keep_model": keep or spec[0] == "dupnames"}
 
     scns = []
-    shapes = ["AB", "AA", "ABAB2", "accel", "entries", "entries", "crash_first", "debugdb", "AB", "AA", "mixed_reset"]
+    shapes = ["AB", "AA", "ABAB2", "accel", "entries", "entries", "crash_first", "debugdb", "AB", "AA", "mixed_reset", "twin"]
     for i in range(n):
         shape = shapes[i % len(shapes)]
         a, b_ = rng.choice(pool), rng.choice(pool)
         reset = rng.random() < 0.4
-        if shape == "AB":
+        if shape == "twin":
+            t0, t1 = rng.choice(twins)
+            if rng.random() < 0.5:
+                t0, t1 = t1, t0
+            how = rng.choice(["main", "main_reset", "convert_bytes", "convert", "mixed"])
+            if how == "main":
+                steps = [step(t0), step(t1), step(t0)]
+            elif how == "main_reset":
+                steps = [step(t0, reset=True), step(t1, reset=True)]
+            elif how == "mixed":
+                steps = [step(t0, entry="convert_bytes"), step(t1, opts=hardcoded), step(t0, entry="convert")]
+            else:
+                steps = [step(t0, entry=how), step(t1, entry=how), step(t0, entry=how)]
+        elif shape == "AB":
             steps = [step(a, reset=reset), step(b_, reset=reset)]
         elif shape == "AA":
             steps = [step(a, reset=reset), step(a, reset=reset)]
@@ -596,6 +618,76 @@ def greedy_tie_probe(ck):
     return nspecs * trials
 
 
+# ------------------------------------------------------------------------------------------------
+# the hill-climb allocator called repeatedly in one process
+
+def hillclimb_repeat_probe(ck):
+    """allocate(A); allocate(B); allocate(A); allocate(A) on live-range sets whose first-fit order is not optimal (so that the
+    randomised search runs): the three results for A must be identical. Judged by `detclass`."""
+    from ethosu.vela import hillclimb_allocation as hc
+
+    class LR:
+        def __init__(self, st, en, sz):
+            self.start_time, self.end_time, self.size = st, en, sz
+
+        def get_alignment(self):
+            return 16
+
+    searched = [0]
+    orig_search = hc.HillClimbAllocator.search
+
+    def search(self_, indices):
+        searched[0] += 1
+        return orig_search(self_, indices)
+
+    hc.HillClimbAllocator.search = search
+    rng = ck.rng
+    ncases = 400 if ck.thorough else 60
+    lines, cases, outs = [], [], []
+
+    def gen():
+        n = rng.randint(6, 22)
+        t = rng.randint(4, 12)
+        out = []
+        for _ in range(n):
+            a = rng.randint(0, t - 1)
+            out.append((a, min(t, a + rng.randint(0, 4)), 16 * rng.choice([1, 2, 3, 5, 8, 13, 21])))
+        return out
+
+    def alloc(spec):
+        try:
+            return list(hc.allocate_live_ranges([LR(*x) for x in spec], 3000, 1 << 30))
+        except Exception as e:  # noqa: B902
+            return "exception:" + type(e).__name__
+
+    try:
+        for _ in range(ncases):
+            a, b_ = gen(), gen()
+            before = searched[0]
+            r1 = alloc(a)
+            used_search = searched[0] > before
+            alloc(b_)
+            r2, r3 = alloc(a), alloc(a)
+            ck.count("hillclimb_repeat_cases")
+            if used_search:
+                ck.count("hillclimb_repeat_cases_reaching_the_random_search")
+            toks = [f"{'ok' if isinstance(r, list) else r}|{len(r) if isinstance(r, list) else 0}|{hashlib.sha256(repr(r).encode()).hexdigest()[:24]}|"
+                    for r in (r1, r2, r3)]
+            lines.append("detclass " + " ".join(toks))
+            cases.append((a, b_))
+            outs.append((r1, r2, r3))
+    finally:
+        hc.HillClimbAllocator.search = orig_search
+    for (a, b_), (r1, r2, r3), v in zip(cases, outs, ck.model(lines, parallel=False)):
+        if v != "1":
+            ck.violation(f"HillClimb allocator gives different addresses to the same live ranges when called again in the same process: "
+                         f"first {r1}, after another allocation {r2}, then {r3} (live ranges (start, end, size): {a})",
+                         {"live_ranges_A": a, "live_ranges_B": b_, "sequence": "allocate(A); allocate(B); allocate(A); allocate(A)",
+                          "results_for_A": [r1, r2, r3], "max_iterations": 3000, "alignment": 16})
+            break
+    return 4 * ncases
+
+
 def obs_token(o, what):
     st = re.sub(r"[^A-Za-z0-9_.:@<>=-]", "_", o["status"])
     if what == "bytes":
@@ -627,11 +719,14 @@ def main():
         scns, pool = make_scenarios(ck.rng, n, hardcoded)
         nseeds = 16 if ck.thorough else 4
         ncli = 48 if ck.thorough else 14
-        cli_nets = [pool[i % len(pool)] for i in range(ncli)]
+        customs = [p for p in pool if p[0][0] == "custom_codes"]
+        ncust = 6 if ck.thorough else 3
+        cli_nets = customs[:ncust] + [pool[i % len(pool)] for i in range(ncli - min(ncust, len(customs)))]
         hseeds = [0, 1] + [ck.rng.randrange(2, 1 << 32) for _ in range(nseeds - 2)]
         cli_jobs = [(list(spec), opts, hs, common._ext_dir) for spec, opts in cli_nets for hs in hseeds]
     nsort = writer_sort_correspondence(ck, info)
     ngreedy = greedy_tie_probe(ck)
+    nhill = hillclimb_repeat_probe(ck)
     jobs = min(16, os.cpu_count() or 4)
     ctx = multiprocessing.get_context("fork")
     with ProcessPoolExecutor(jobs, mp_context=ctx) as ex:
@@ -656,6 +751,8 @@ def main():
             ck.count("entry_" + s["entry"])
             ck.count("status_" + o["status"].split(":")[0])
             ck.count("kind_" + s["net"][0])
+            if s["net"][0] in ("twin0", "twin1", "custom_codes"):
+                ck.count(s["net"][0].rstrip("01") + "_" + o["status"].split("@")[0][:40])
             if o["stale_hits"]:
                 ck.count("runs_with_cross_compilation_weight_cache_hit")
             if o["stale_addr"]:
@@ -748,8 +845,9 @@ def main():
                        "effective options) form a class whose (ending, output size, SHA-256, summary columns, debug database) the Lean "
                        "judge Determinism.agree must find identical. Props/C14 proves when the abstract process-state model is history "
                        "independent and exhibits the witnesses where the unchanged code is not.",
-        "evaluations": nsteps + len(cli_results) + nsort + ngreedy,
+        "evaluations": nsteps + len(cli_results) + nsort + ngreedy + nhill,
         "greedy_tie_trials": ngreedy,
+        "hillclimb_repeat_allocations": nhill,
         "compilations_observed": nsteps + len(cli_results),
         "writer_sort_cases": nsort,
         "distinct_nontrivial": nontrivial,
